@@ -25,6 +25,7 @@ func C07(r *core.Run) {
 	dependencyCompleteness(r)
 	containerPairs(r, "internal/j5s/j5convert", "internal/j5s/sourcewalk")
 	rules.ImportPairing(r)
+	headerDescriptionOwner(r)
 	r.Floor("R-EXT/G3", 25, "one per SetExtension site in j5convert")
 }
 
